@@ -802,6 +802,34 @@ func (e *Env) evalCall(x *Expr) TV {
 		case SliceV:
 			return TV{Scalar{v.Arr}, nil}
 		}
+	case "seglen", "segbyte":
+		// abstract sum of the segment lengths / y-th byte of the concatenation of a [][]byte value
+		v := arg(0).V.(SliceV)
+		h := e.st.heap
+		arrRow := h.elemRow(RefSort, 0, v.Arr)
+		offRow := h.elemRow(IntSort, 1, v.Arr)
+		lenRow := h.elemRow(IntSort, 2, v.Arr)
+		sl := App("seglen", IntSort, lenRow, v.Off, v.Len)
+		if !v.Arr.hasBound && !v.Off.hasBound && !v.Len.hasBound {
+			e.fv.side = append(e.fv.side, Ge(sl, IntLit(0)), Implies(Eq(v.Len, IntLit(0)), Eq(sl, IntLit(0))),
+				Implies(Eq(v.Len, IntLit(1)), Eq(sl, Select(lenRow, v.Off))))
+			// a single segment is its own concatenation
+			e.fv.nfresh++
+			y := BoundVar(fmt.Sprintf("y!sg%d", e.fv.nfresh), IntSort)
+			_, M0 := h.elemArr(IntSort, 0)
+			sb := App("segbyte", IntSort, M0, arrRow, offRow, lenRow, v.Off, v.Len, y)
+			one := Forall([]*Term{y}, Implies(And(Le(IntLit(0), y), Lt(y, Select(lenRow, v.Off))),
+				Eq(sb, Select(Select(M0, Select(arrRow, v.Off)), Add(Select(offRow, v.Off), y)))))
+			if one.Op == "forall" {
+				one.Pats = [][]*Term{{sb}}
+			}
+			e.fv.side = append(e.fv.side, Implies(Eq(v.Len, IntLit(1)), one))
+		}
+		if x.Name == "seglen" {
+			return TV{Scalar{sl}, nil}
+		}
+		_, M0 := h.elemArr(IntSort, 0)
+		return TV{Scalar{App("segbyte", IntSort, M0, arrRow, offRow, lenRow, v.Off, v.Len, e.promote(arg(1)))}, nil}
 	case "content":
 		// abstract identity of the byte string held by a string or []byte value
 		v := arg(0).V.(SliceV)
